@@ -44,6 +44,7 @@ pub mod worterbuch {
         include!("/verif/kani/wb/src/h/util.rs");
         include!("/verif/kani/wb/src/h/c03.rs");
         include!("/verif/kani/wb/src/h/c08.rs");
+        include!("/verif/kani/wb/src/h/c07.rs");
         include!("/verif/kani/wb/src/h/probe.rs");
     }
 }
